@@ -861,6 +861,35 @@ func instrument(path, gen, pkgName string, names *[]string) (bool, error) {
 
 	changed := false
 
+	// synchronisation seam: the library's "sync" and "sync/atomic" become the shims of the harness (same local
+	// name), its go statements become verifrt.Go - so that the cooperative scheduler owns them (DESIGN.md 10.2)
+	for _, imp := range f.Imports {
+		path, _ := strconv.Unquote(imp.Path.Value)
+		shim, local := "", ""
+
+		switch path {
+		case "sync":
+			shim, local = modPath+"/internal/verif/vsync", "sync"
+		case "sync/atomic":
+			shim, local = modPath+"/internal/verif/vatomic", "atomic"
+		}
+
+		if shim == "" || (imp.Name != nil && (imp.Name.Name == "_" || imp.Name.Name == ".")) {
+			continue
+		}
+
+		if imp.Name == nil {
+			imp.Name = ast.NewIdent(local)
+		}
+
+		imp.Path.Value = strconv.Quote(shim)
+		changed = true
+	}
+
+	if rewriteGoStmts(f) {
+		changed = true
+	}
+
 	for _, d := range f.Decls {
 		fd, ok := d.(*ast.FuncDecl)
 		if !ok || fd.Body == nil {
@@ -897,6 +926,10 @@ func instrument(path, gen, pkgName string, names *[]string) (bool, error) {
 		Path: &ast.BasicLit{Kind: token.STRING, Value: strconv.Quote(modPath + "/internal/verif/verifrt")},
 	}}}
 	f.Decls = append([]ast.Decl{imp}, f.Decls...)
+	// (a file that only declares variables of sync types has no call into verifrt)
+	f.Decls = append(f.Decls, &ast.GenDecl{Tok: token.VAR, Specs: []ast.Spec{&ast.ValueSpec{
+		Names: []*ast.Ident{ast.NewIdent("_")}, Values: []ast.Expr{&ast.SelectorExpr{X: ast.NewIdent("verifrt"), Sel: ast.NewIdent("Enter")}},
+	}}})
 
 	var b bytes.Buffer
 	// Comments are dropped from the printed copy: their positions would be wrong after the insertions, and
@@ -907,6 +940,89 @@ func instrument(path, gen, pkgName string, names *[]string) (bool, error) {
 	}
 
 	return true, os.WriteFile(gen, b.Bytes(), 0o644)
+}
+
+// rewriteGoStmts turns every `go f(a, b)` into `{ v0 := a; v1 := b; verifrt.Go(func() { f(v0, v1) }) }`: arguments
+// are still evaluated by the spawning goroutine at the statement (arguments made of literals only stay in place, an
+// untyped constant must not be given a default type), the call itself runs in the new goroutine.
+func rewriteGoStmts(f *ast.File) bool {
+	changed := false
+	n := 0
+
+	literalOnly := func(e ast.Expr) bool {
+		lit := true
+
+		ast.Inspect(e, func(x ast.Node) bool {
+			switch v := x.(type) {
+			case *ast.Ident:
+				if v.Name != "nil" && v.Name != "true" && v.Name != "false" && v.Name != "iota" {
+					lit = false
+				}
+			case *ast.FuncLit, *ast.CallExpr, *ast.CompositeLit:
+				lit = false
+			}
+
+			return lit
+		})
+
+		return lit
+	}
+
+	conv := func(st ast.Stmt) ast.Stmt {
+		g, ok := st.(*ast.GoStmt)
+		if !ok {
+			return st
+		}
+
+		changed = true
+		var pre []ast.Stmt
+		call := *g.Call
+		call.Args = append([]ast.Expr{}, g.Call.Args...)
+
+		for i, a := range call.Args {
+			if literalOnly(a) {
+				continue
+			}
+
+			v := ast.NewIdent(fmt.Sprintf("verifGoArg%d", n))
+			n++
+			pre = append(pre, &ast.AssignStmt{Lhs: []ast.Expr{v}, Tok: token.DEFINE, Rhs: []ast.Expr{a}})
+			call.Args[i] = v
+		}
+
+		spawn := &ast.ExprStmt{X: &ast.CallExpr{
+			Fun: &ast.SelectorExpr{X: ast.NewIdent("verifrt"), Sel: ast.NewIdent("Go")},
+			Args: []ast.Expr{&ast.FuncLit{
+				Type: &ast.FuncType{Params: &ast.FieldList{}},
+				Body: &ast.BlockStmt{List: []ast.Stmt{&ast.ExprStmt{X: &call}}},
+			}},
+		}}
+
+		return &ast.BlockStmt{List: append(pre, spawn)}
+	}
+
+	ast.Inspect(f, func(x ast.Node) bool {
+		switch v := x.(type) {
+		case *ast.BlockStmt:
+			for i, st := range v.List {
+				v.List[i] = conv(st)
+			}
+		case *ast.CaseClause:
+			for i, st := range v.Body {
+				v.Body[i] = conv(st)
+			}
+		case *ast.CommClause:
+			for i, st := range v.Body {
+				v.Body[i] = conv(st)
+			}
+		case *ast.LabeledStmt:
+			v.Stmt = conv(v.Stmt)
+		}
+
+		return true
+	})
+
+	return changed
 }
 
 // instrumentCarries writes a copy of a Fiat file in which every `v, c = bits.Add64(...)` / `bits.Sub64(...)` is followed
